@@ -129,6 +129,7 @@ Section ERun.
         | None => Exn XAttributeError
         | Some k => td_nondict (konst_u E) k.(sc_fields) end
     | UBox b u' => r <- on_u u' s ;; Ok (box_val b r)   (* collections.deque(...) / OrderedDict(...) / ChainMap( ... ): the class call itself never raises *)
+    | ULit ls => lit_find ls (VStr s)                  (* Literal: no literal of that class and value: ValueError *)
     end.
 
   Fixpoint ue (d: pv) {struct d} : pdec -> res pv :=
@@ -343,6 +344,7 @@ Section ERun.
               end
           end
       | UBox b u' => r <- on_u u' ;; Ok (box_val b r)
+      | ULit ls => lit_find ls d
       end.
 
   (* decoding a value of type t at a codec root / inside a container; as a dataclass field *)
